@@ -2,6 +2,7 @@ CONSTANTS Depth = 4 MaxH = 4 SelSet = "full" AsgSet = "full" FunSet = "full" Rea
 SPECIFICATION Spec
 INVARIANT RefinesModuloStale
 INVARIANT WrongOnlyIfStale
+INVARIANT StaleWithinMayStale
 INVARIANT AliasesAgree
 INVARIANT ContigOwnBuffer
 INVARIANT DerivedIsFresh
